@@ -53,14 +53,18 @@ theorem runNewInstance_eq (c : Ctx) (id : Int) : Gen.Startup.runNewInstance c id
 /-- `newInstance` puts its context and its id into `GunDeps` (what the gun's `Bind` sees) and into the instance -/
 theorem newInstance_eq (c : Ctx) (id : Int) : Gen.Startup.newInstance c id = (c, id, id) := rfl
 
-/-- result of an instance awaited: out of ammo cancels the START context (unless start has finished) and nothing
-else; any other error that is not the run context's own error is reported (the pool fails, which cancels the run) -/
-theorem onInstanceResult_eq (oa sf : Bool) (ce : Ctx → Bool) :
-    Gen.Startup.onInstanceResult oa sf ce =
-      if oa then (if sf then [] else [PoolAct.cancel Ctx.start])
-      else if ce Ctx.run then [] else [PoolAct.reportErr] := by
+/-- result of an instance awaited: an out-of-ammo result cancels the START context while instance start is still going
+on, and does nothing but that; any other result never cancels a context: it is either ignored (the run context's own
+error) or reported (the pool fails, which cancels the run).  Stated as properties, so that an equivalent rewrite of the
+`if` chain (e.g. dropping the redundant `isStartFinished` guard) does not break it. -/
+theorem onInstanceResult_spec (sf : Bool) (ce : Ctx → Bool) :
+    Gen.Startup.onInstanceResult true false ce = [PoolAct.cancel Ctx.start] ∧
+    (∀ a ∈ Gen.Startup.onInstanceResult true sf ce, a = PoolAct.cancel Ctx.start) ∧
+    (∀ a ∈ Gen.Startup.onInstanceResult false sf ce, a = PoolAct.reportErr) ∧
+    (ce Ctx.run = true → Gen.Startup.onInstanceResult false sf ce = []) ∧
+    (ce Ctx.run = false → Gen.Startup.onInstanceResult false sf ce = [PoolAct.reportErr]) := by
   unfold Gen.Startup.onInstanceResult
-  cases oa <;> cases sf <;> cases ce Ctx.run <;> rfl
+  cases sf <;> cases h : ce Ctx.run <;> simp [h]
 
 /-- the run context is cancelled by the pool itself only when all instances have finished -/
 theorem runCancelCallers_eq : Gen.Startup.runCancelCallers = ["checkAllInstancesAreFinished"] := rfl
